@@ -21,6 +21,23 @@ Theorem c04_accept_sound : forall i now c t, accepts i now c t = true ->
   subject_bound c (t_claims t).
 Proof. exact accepts_sound. Qed.
 
+(* The storage consumer spelled out for BOTH read paths of GetSigned (c04_accept_sound covers them
+   through the consumer [CStorage p user col other], p and other universally quantified): whichever
+   arm of the select answers - the primary, or the local cache after the primary failed to answer
+   in time - and whatever the other store holds in that slot, a record is served only from the
+   slot of the store that answered, with an expiration column in the future, genuinely signed, of
+   kind storage_data, naming this server as issuer and first audience, inside its signed window,
+   and signed for the user it is served for. *)
+Theorem c04_storage_both_paths : forall p st now user prim cache d,
+  get_signed_via p st now user prim cache = Some d ->
+  exists r, answering_row p prim cache = Some r /\ unix now < r_col_exp r /\
+    genuine st (r_jws r) /\ names_server st (t_claims (r_jws r)) /\
+    rd_str "token_type" (t_claims (r_jws r)) = Some k_storage /\
+    (exists nbf, rd_int "nbf" (t_claims (r_jws r)) = Some nbf /\ nbf <= unix now) /\
+    (exists e, rd_int "exp" (t_claims (r_jws r)) = Some e /\ unix now <= e) /\
+    rd_str "sub" (t_claims (r_jws r)) = Some user /\ rd_str "data" (t_claims (r_jws r)) = Some d.
+Proof. exact get_signed_via_sound. Qed.
+
 (* The producer x consumer matrix: an artefact of one kind, with ALL its parameters chosen freely
    (user names, nonces, scopes, redirect URIs, data strings, levels, lifetimes, issue time), is
    refused by every consumer of another kind, whatever else the request contains. *)
@@ -43,7 +60,7 @@ Theorem c04_single_claim_resigned : forall i now c t n v, accepts i now c (recla
   (n = "aud"%string -> must_name_server c -> exists rest, v = VList (s_issuer (srv i) :: rest)) /\
   (n = "nbf"%string -> checks_nbf c -> exists z, v = VInt z /\ z <= unix now) /\
   (n = "exp"%string -> exists z, v = VInt z /\ exp_ok now c z) /\
-  (n = "sub"%string -> match c with CCliSend _ u | CStorage u _ => v = VStr u | _ => True end) /\
+  (n = "sub"%string -> match c with CCliSend _ u | CStorage _ u _ _ => v = VStr u | _ => True end) /\
   (n = "auth_type"%string -> match c with CSession req => exists l, v = VInt l /\ Z.land l req <> 0 | _ => True end).
 Proof. exact single_claim_resigned. Qed.
 
@@ -81,6 +98,30 @@ Proof.
   vm_compute. split; [reflexivity|]. split; [|reflexivity]. exists 1500. split; reflexivity.
 Qed.
 
+(* A cache arm that verified the record but skipped the subject comparison would serve bob's
+   genuine record, moved into alice's row of the cache database, as alice's; the code refuses it
+   on either arm and still serves it to bob. *)
+Theorem c04_cache_arm_without_subject_refuted :
+  let now := 2000 * NS in
+  let t := p_storage srv0 (1000 * NS) (b "bob") 1 (b "bobs-hash") 5000 in
+  let moved := Some {| r_col_exp := 5000; r_jws := t |} in
+  c_storage_nosub srv0 now (b "alice") {| r_col_exp := 5000; r_jws := t |} = Some (b "bobs-hash") /\
+  get_signed_via PCache srv0 now (b "alice") None moved = None /\
+  get_signed_via PPrimary srv0 now (b "alice") moved None = None /\
+  get_signed_via PCache srv0 now (b "bob") None moved = Some (b "bobs-hash").
+Proof. exact cache_arm_without_subject_refuted. Qed.
+
+(* What "purpose-bound" does NOT reach inside the storage kind: the signed data_type claim is not
+   compared with the type the record is requested under (GetSigned selects the row by the unsigned
+   type column).  The statement distinguishes the five artefact KINDS; keymaster writes and reads a
+   single data type (1, the password hash), so no cross-purpose acceptance exists in the daemon -
+   recorded as an observation, and made explicit here so that a second data type would not be
+   added in the belief that the claim protects it. *)
+Theorem c04_storage_data_type_unbound : forall st now issue user dt dt' data exp col,
+  c_storage st now user {| r_col_exp := col; r_jws := p_storage st issue user dt data exp |} =
+  c_storage st now user {| r_col_exp := col; r_jws := p_storage st issue user dt' data exp |}.
+Proof. exact storage_data_type_unbound. Qed.
+
 (* ---------------------------------------------------------------- non-vacuity *)
 Definition idp0 : idp :=
   {| srv := srv0; clients := [ {| cl_id := b "clientA"; cl_secret := b "secretA" |};
@@ -101,7 +142,8 @@ Example c04_each_consumer_accepts :
   accepts idp0 (1010 * NS) (CUpdate 10) (emit srv0 (1000 * NS) (ASession (b "alice") 2 57600)) = true /\
   accepts idp0 (1010 * NS) CCliVerify (emit srv0 (1000 * NS) (ACli (b "alice") 60)) = true /\
   accepts idp0 (1010 * NS) (CCliSend 1024 (b "alice")) (emit srv0 (1000 * NS) (ACli (b "alice") 60)) = true /\
-  accepts idp0 (1010 * NS) (CStorage (b "alice") 5000) (emit srv0 (1000 * NS) (AStorage (b "alice") 1 (b "h") 5000)) = true /\
+  accepts idp0 (1010 * NS) (CStorage PPrimary (b "alice") 5000 None) (emit srv0 (1000 * NS) (AStorage (b "alice") 1 (b "h") 5000)) = true /\
+  accepts idp0 (1010 * NS) (CStorage PCache (b "alice") 5000 None) (emit srv0 (1000 * NS) (AStorage (b "alice") 1 (b "h") 5000)) = true /\
   accepts idp0 (1010 * NS) (CToken (treq0 code0)) code0 = true /\
   accepts idp0 (1010 * NS) CUserinfo (emit srv0 (1005 * NS) (AAccess (code_of idp0 (1000 * NS) (b "alice")
      {| ar_method_ok := true; ar_response_type := rt_code; ar_client := b "clientA"; ar_scope := b "openid";
@@ -115,5 +157,9 @@ Example c04_window_edges :
   accepts idp0 (58601 * NS) (CSession 2) (emit srv0 (1000 * NS) (ASession (b "alice") 2 57600)) = false /\
   accepts idp0 (999 * NS) (CSession 2) (emit srv0 (1000 * NS) (ASession (b "alice") 2 57600)) = false /\
   accepts idp0 (1301 * NS) (CToken (treq0 code0)) code0 = false /\
-  accepts idp0 (5001 * NS) (CStorage (b "alice") 9999) (emit srv0 (1000 * NS) (AStorage (b "alice") 1 (b "h") 5000)) = false.
+  accepts idp0 (5001 * NS) (CStorage PPrimary (b "alice") 9999 None) (emit srv0 (1000 * NS) (AStorage (b "alice") 1 (b "h") 5000)) = false /\
+  accepts idp0 (5001 * NS) (CStorage PCache (b "alice") 9999 None) (emit srv0 (1000 * NS) (AStorage (b "alice") 1 (b "h") 5000)) = false /\
+  (* the other user's record in the slot: refused on both paths *)
+  accepts idp0 (1010 * NS) (CStorage PPrimary (b "alice") 5000 None) (emit srv0 (1000 * NS) (AStorage (b "bob") 1 (b "h") 5000)) = false /\
+  accepts idp0 (1010 * NS) (CStorage PCache (b "alice") 5000 None) (emit srv0 (1000 * NS) (AStorage (b "bob") 1 (b "h") 5000)) = false.
 Proof. vm_compute. repeat split; reflexivity. Qed.
